@@ -31,7 +31,7 @@ def table(ctx):
     c = dict(Grids=RawTla("{" + ", ".join("[x |-> %s, y |-> %s]" % (tlcmod.tla(g["x"]), tlcmod.tla(g["y"])) for g in GRIDS) + "}"),
              Queries=RawTla("{" + ", ".join("<<%d, %d>>" % (q.numerator, q.denominator) for q in qs) + "}"),
              Extraps={"nan", "const", "const0", "constneg", "bound", "mirror", "periodic"}, YModes={"init", "call", "both", "none"})
-    t, cf = tlcmod.gen_mc(ctx.work, "InterpCfg", "MC_Interp", c, invariants=["MappedInside", "HitsSamples", "Between"])
+    t, cf = tlcmod.gen_mc(ctx.work, "InterpCfg", "MC_Interp", c, invariants=["MappedInside", "HitsSamples", "Between", "SlopeMagnitude"])
     dot = os.path.join(ctx.work, "ic.dot")
     ctx.model_check(t, cf, workers=8, dump_dot=dot, label="interpolation case table", timeout=600)
     nodes, inits, edges = tlcmod.parse_dot(dot)
@@ -43,7 +43,7 @@ def fr(p):
     return Fraction(int(p[0]), int(p[1]))
 
 
-def call_interp(method, g, q, extrap, ymode, many, **kw):
+def call_interp(method, g, q, extrap, ymode, many, xq_out=None, **kw):
     x = torch.tensor(g["x"], dtype=DT)
     y = torch.tensor(g["y"], dtype=DT)
     # the constant zero in its accepted forms (python int / float, one-element tensor), a negative tensor constant
@@ -52,6 +52,9 @@ def call_interp(method, g, q, extrap, ymode, many, **kw):
     # the real query vector: the probed point first, padded with inside points to select the evaluation formula
     pad = torch.linspace(float(x[0]), float(x[-1]), len(g["x"]) + 3, dtype=DT) if many else torch.tensor([], dtype=DT)
     xq = torch.cat([torch.tensor([float(q)], dtype=DT), pad])
+    if xq_out is not None:
+        xq.requires_grad_()
+        xq_out.append(xq)
     with warnings.catch_warnings(record=True) as wl:
         warnings.simplefilter("always")
         if ymode == "init":
@@ -81,11 +84,12 @@ def run(ctx):
                      sample={"x": g["x"], "y": g["y"], "q": str(q), "extrap": extrap, "ymode": ymode, "spec": {"cls": pred["cls"], "pos": str(fr(pred["pos"])), "v": str(fr(pred["v"]))}} if n % 211 == 1 else None)
             why = None
             try:
-                out, warned = call_interp("linear", g, q, extrap, ymode, many)
+                xqs = []
+                out, warned = call_interp("linear", g, q, extrap, ymode, many, xq_out=xqs)
                 if pred["cls"] == "raise":
                     why = "no y was given at all but no error was raised"
                 else:
-                    v = float(out[0])
+                    v = float(out[0].detach())
                     if pred["cls"] == "nan":
                         if not math.isnan(v):
                             why = "value %r, documented nan outside the range" % v
@@ -99,8 +103,32 @@ def run(ctx):
                     if why is None and many:
                         xs = torch.linspace(float(g["x"][0]), float(g["x"][-1]), len(g["x"]) + 3, dtype=DT)
                         ref = np.interp(xs.numpy(), np.array(g["x"], dtype=float), np.array(g["y"], dtype=float))
-                        if not np.allclose(out[1:].numpy(), ref, atol=1e-13):
+                        if not np.allclose(out[1:].detach().numpy(), ref, atol=1e-13):
                             why = "inside padding points differ from numpy.interp"
+                    if why is None and pred["smooth"] and ymode in ("init", "call"):
+                        # differentiable in the query points with the interpolant's own derivative: the probed query (inside or mapped
+                        # from outside) and, in the same call, the inside padding queries
+                        if out.requires_grad:
+                            gq, = torch.autograd.grad(out[0], xqs[0], retain_graph=True, allow_unused=True)
+                            gq0 = 0.0 if gq is None else float(gq[0])
+                        else:
+                            gq0 = 0.0
+                        expd = float(fr(pred["dq"]))
+                        if not abs(gq0 - expd) <= 1e-12 * max(1.0, abs(expd)):
+                            why = "derivative w.r.t. the query point %r, the interpolant%s gives exactly %s" % (
+                                gq0, "" if fr(pred["pos"]) == q else " at the mapped position %s (map '%s')" % (fr(pred["pos"]), extrap), fr(pred["dq"]))
+                        elif many:
+                            gx = np.array(g["x"], dtype=float)
+                            gyv = np.array(g["y"], dtype=float)
+                            padq = xqs[0].detach().numpy()[1:]
+                            seg = np.clip(np.searchsorted(gx, padq, side="left") - 1, 0, len(gx) - 2)
+                            slopes = (gyv[seg + 1] - gyv[seg]) / (gx[seg + 1] - gx[seg])
+                            interior = np.array([not np.any(np.abs(gx - v_) < 1e-12) for v_ in padq])
+                            gp = torch.autograd.grad(out[1:].sum(), xqs[0], allow_unused=True)[0] if out.requires_grad else None
+                            gpv = np.zeros(len(padq)) if gp is None else gp.numpy()[1:]
+                            if not np.allclose(gpv[interior], slopes[interior], atol=1e-12):
+                                why = "derivative w.r.t. the inside queries of the same call %s, segment slopes %s (probed query %s)" % (
+                                    gpv[interior].tolist(), slopes[interior].tolist(), "inside" if fr(pred["pos"]) == q else "outside")
             except NotImplementedError as e:
                 why = "NotImplementedError: %s" % e
             except Exception as e:
@@ -135,11 +163,26 @@ def run(ctx):
                 if extrap == "periodic":
                     gp = {"x": g["x"], "y": g["y"][:-1] + [g["y"][0]]}
                 try:
-                    a, _ = call_interp("cspline", gp, q, extrap, "init", False, bc_type=bc)
-                    b, _ = call_interp("cspline", gp, fr(pred["pos"]), "nan", "init", False, bc_type=bc)
+                    many_ = (n % 2 == 0)                  # alone, or together with inside queries in the same call
+                    qa, qb = [], []
+                    a, _ = call_interp("cspline", gp, q, extrap, "init", many_, xq_out=qa, bc_type=bc)
+                    b, _ = call_interp("cspline", gp, fr(pred["pos"]), "nan", "init", many_, xq_out=qb, bc_type=bc)
                     if not abs(float(a[0]) - float(b[0])) <= 1e-11 * max(1.0, abs(float(b[0]))):
                         ctx.violation("interp/cspline/extrap-%s" % extrap, "cspline(%s) x=%s q=%s extrap=%s gives %r but the interpolant at the mapped position %s is %r"
                                       % (bc, gp["x"], q, extrap, float(a[0]), fr(pred["pos"]), float(b[0])), {"g": gp, "q": str(q)})
+                    else:
+                        # the derivative w.r.t. the queries: the spline's own derivative at the mapped position times the derivative of the
+                        # map (the spline is C2, so knots are fine); inside queries of the same call keep the spline's derivative
+                        ga = torch.autograd.grad(a.sum(), qa[0], allow_unused=True)[0] if a.requires_grad else None
+                        gb_ = torch.autograd.grad(b.sum(), qb[0], allow_unused=True)[0] if b.requires_grad else None
+                        ga = torch.zeros_like(qa[0]) if ga is None else ga
+                        gb_ = torch.zeros_like(qb[0]) if gb_ is None else gb_
+                        expd = gb_.clone()
+                        expd[0] = gb_[0] * float(fr(pred["mapd"]))
+                        at_end = fr(pred["pos"]) in (Fraction(gp["x"][0]), Fraction(gp["x"][-1])) and extrap != "bound"
+                        if not at_end and not torch.allclose(ga, expd, atol=1e-9, rtol=1e-9):
+                            ctx.violation("interp/cspline/extrap-%s/dq" % extrap, "cspline(%s) x=%s q=%s extrap=%s%s: derivative w.r.t. the queries %s, the spline's derivative at the mapped position %s times the map's derivative %s gives %s"
+                                          % (bc, gp["x"], q, extrap, " together with inside queries" if many_ else "", ga.tolist(), fr(pred["pos"]), fr(pred["mapd"]), expd.tolist()), {"g": gp, "q": str(q)})
                 except Exception as e:
                     ctx.violation("interp/cspline/not-a-knot/n=3" if (bc == "not-a-knot" and len(gp["x"]) == 3) else "interp/cspline/extrap-%s/raise" % extrap, "cspline(%s) x=%s q=%s extrap=%s raised %s: %s" % (bc, gp["x"], q, extrap, type(e).__name__, str(e)[:100]),
                                   {"g": gp, "q": str(q)})
